@@ -33,6 +33,7 @@ KIND_SUB = "RPAM"
 def lit(s):
     return ('L', s.encode() if isinstance(s, str) else s)
 
+bump_shape = [0]
 def gen_level_tables(rng, depth, dirty):
     """tables[lv] = list of ports (dicts with an extra 'kind'); every sub-tree
     port of level lv has sub = tables[lv+1]"""
@@ -56,7 +57,7 @@ def gen_level_tables(rng, depth, dirty):
             s = "q%d" % len(used); used.add(s); reserved.add(s); return s
         toggles = []
         if rng.random() < 0.7:
-            nm = fresh(strict=True); toggles.append(('T', nm))
+            nm = fresh(3, strict=True); toggles.append(('T', nm))
             t.append(pc.mk_port([lit(nm)], b"::T:F", pc.render_meta([(b"parameter", None)]), None, kind='T'))
         if rng.random() < 0.4:
             nm = fresh(strict=True); toggles.append(('U', nm))
@@ -76,6 +77,16 @@ def gen_level_tables(rng, depth, dirty):
             for k in kinds:
                 if k in "RP":
                     segs = [lit(fresh(strict=True) + "/")]
+                    # a sub-tree whose name is the beginning of its sibling enabling toggle's
+                    # name (fx/ enabled by fxon): the addresses /p/fx/ and /p/fxon share a prefix
+                    longt = [nm for _, nm in toggles if len(nm) >= 2 and nm[:-1] not in reserved and nm[:-1] not in used]
+                    if longt and rng.random() < 0.5:
+                        tg = rng.choice(longt)
+                        used.add(tg[:-1]); reserved.add(tg[:-1])
+                        meta = pc.render_meta([(b"enabled by", tg.encode()), (b"doc", b"d")])
+                        t.append(pc.mk_port([lit(tg[:-1] + "/")], b"", meta, tables[lv + 1], kind=k))
+                        bump_shape[0] += 1
+                        continue
                     if child_toggles and rng.random() < 0.35:
                         # 'enabled by' names a port INSIDE the sub-tree it disables: "name/toggle"
                         tg = rng.choice(child_toggles)['name'].split(b":")[0]
@@ -248,6 +259,7 @@ def gen(rng, tier, dist):
         t = tabs[0]
         et, ek = pc.enc_tree(t), kinds_of(t)
         bump(dist, "depth-%d" % depth)
+        bump(dist, "subtree-name-prefix-of-its-toggle", bump_shape[0]); bump_shape[0] = 0
         flat = [p for tb in tabs for p in tb]
         bump(dist, "trees-with-subtree-N>=11", 1 if any(p['sub'] is not None and any(k == 'E' and v >= 11 for k, v in p['segs']) for p in flat) else 0)
         bump(dist, "trees-with-leaf-two-hash", 1 if any(p['sub'] is None and pc.n_hash(p['segs']) >= 2 for p in flat) else 0)
